@@ -20,6 +20,6 @@ Then write a demonstration: a small standalone script `{out}/demo.py` that exits
 
 Verify all of it yourself:
 1. with your change applied in {wt}: the stable part of the test suite passes. The full suite takes ~4-5 minutes: `cd {wt} && JAX_PLATFORMS=cpu PYTHONPATH={wt} /venv/bin/python -m pytest -q -p no:cacheprovider --timeout=900 -x -q tests/dataGenerator_tests tests/parameters_tests tests/utils_tests tests/solver_tests/test_NSPipeFlow_x32_eqx.py tests/solver_tests/test_nan_params_catch.py tests/solver_tests/test_parameter_tracker.py tests/solver_tests/test_rar_algorithm.py tests/solver_tests_spinn/test_NSPipeFlow_x32_spinn_eqx.py` (these are the tests that pass on the original code; other test files fail already on the original code for unrelated reasons — ignore them). All of these must still pass.
-2. the demo fails with the change and passes without it (`git -C {wt} stash` / `stash pop` to switch).
+2. the demo fails with the change and passes without it (to switch, save your change with `git -C {wt} diff > {out}/patch.diff`, then `git -C {wt} apply -R {out}/patch.diff` / `git -C {wt} apply {out}/patch.diff`; do NOT use `git stash`: the stash is shared with other worktrees of the same repository).
 
 Deliver in the directory {out}/ (create it): `patch.diff` (output of `git -C {wt} diff`), `demo.py`, and `meta.json` with keys: property ("{pid}"), summary (one paragraph: what was changed and why it breaks the property), needs (what specific condition is needed for it to manifest), ran (the commands you ran and their outcomes). Leave the change applied in the worktree when you finish. Final message: the summary, in 5 lines at most.""")
